@@ -603,8 +603,8 @@ def sum_col_is(vc, rec, k, W, col, summand, P, name):
 class AddData(Contract):
     target = AD + 'add_data'
     prop = 'C12'
-    fin = 3
-    fin_range = 8
+    fin = 2                # finitised mode (vacuity cover, counter-models): N, k, widths, col < 2, i.e. N + k <= 2
+    fin_range = 4
 
     def __init__(self, first, layout):
         self.first, self.layout = first, tuple(layout)
